@@ -166,15 +166,15 @@ def helper_axes(vc):
     c, t = Int('c'), Int('t')
     fs = vc.call(WU + ':get_fs', w)
     vc.cover('reachable')
-    vc.ensure('C03/get_fs/post/exactly-nchans-entries-fch1+i*foff', And(fs.ok, fs.value.ndim == 1, eq(fs.value.shape[0], n), Implies(And(c >= 0, c < n), eq(fs.value.at((c,)), fch1 + c * foff))))
+    vc.ensure('C03/get_fs/post/exactly-nchans-entries-fch1+i*foff', okv(fs, lambda v: And(v.ndim == 1, eq(v.shape[0], n), Implies(And(c >= 0, c < n), eq(v.at((c,)), fch1 + c * foff)))))
     ts = vc.call(WU + ':get_ts', w)
-    vc.ensure('C03/get_ts/post/exactly-one-entry-per-integration-i*tsamp', And(ts.ok, ts.value.ndim == 1, eq(ts.value.shape[0], T), Implies(And(t >= 0, t < T), eq(ts.value.at((t,)), t * tsamp))))
+    vc.ensure('C03/get_ts/post/exactly-one-entry-per-integration-i*tsamp', okv(ts, lambda v: And(v.ndim == 1, eq(v.shape[0], T), Implies(And(t >= 0, t < T), eq(v.at((t,)), t * tsamp)))))
     d = vc.call(WU + ':get_data', w)
-    vc.ensure('C03/get_data/post/2-D-view-of-the-single-polarisation', And(d.ok, d.value.ndim == 2, eq(d.value.shape[0], T), eq(d.value.shape[1], n),
-                                                                            Implies(And(c >= 0, c < n, t >= 0, t < T), eq(d.value.at((t, c)), w.fields['data'].at((t, 0, c))))))
+    vc.ensure('C03/get_data/post/2-D-view-of-the-single-polarisation', okv(d, lambda v: And(v.ndim == 2, eq(v.shape[0], T), eq(v.shape[1], n),
+                                                                            Implies(And(c >= 0, c < n, t >= 0, t < T), eq(v.at((t, c)), w.fields['data'].at((t, 0, c)))))))
     lo, hi = vc.call(WU + ':min_freq', w), vc.call(WU + ':max_freq', w)
     first, last = fch1, fch1 + (n - 1) * foff
-    vc.ensure('C03/min_freq-max_freq/post/ends-of-the-axis-by-orientation', And(lo.ok, hi.ok, eq(lo.value, sym_if(foff > 0, first, last)), eq(hi.value, sym_if(foff > 0, last, first))))
+    vc.ensure('C03/min_freq-max_freq/post/ends-of-the-axis-by-orientation', And(eq(lo.value, sym_if(foff > 0, first, last)), eq(hi.value, sym_if(foff > 0, last, first))) if lo.ok and hi.ok else False)
     bad = vc.call(WU + ':get_fs', 5)
     vc.ensure('C03/get_fs/exc/ValueError-for-anything-but-a-path-or-Waterfall', And(not bad.ok, bad.exc == 'ValueError'))
 
@@ -192,8 +192,8 @@ def helper_axes_fp(vc):
         fs = vc.call(WU + ':get_fs', w)
         ts = vc.call(WU + ':get_ts', w)
     vc.cover('reachable')
-    vc.ensure('C03/get_fs/fp/exactly-nchans-entries-whatever-the-rounding', And(fs.ok, eq(fs.value.shape[0], n)))
-    vc.ensure('C03/get_ts/fp/exactly-one-entry-per-integration-whatever-the-rounding', And(ts.ok, eq(ts.value.shape[0], T)))
+    vc.ensure('C03/get_fs/fp/exactly-nchans-entries-whatever-the-rounding', okv(fs, lambda v: eq(v.shape[0], n)))
+    vc.ensure('C03/get_ts/fp/exactly-one-entry-per-integration-whatever-the-rounding', okv(ts, lambda v: eq(v.shape[0], T)))
 
 
 @contract('C03', 'derived_frames_keep_the_waterfall_consistent', functions=['setigen.slice:get_slice', 'setigen.dedrift:dedrift', FR + '.from_data', FR + '.check_waterfall'])
